@@ -5,6 +5,7 @@
 (2) Interpreter::collect_import_requests_internal on programs of up to 2 (3) statements (import / re-export / other, symbolic
     specifiers): one request per import or re-export, in order, whose resolved_path is ModulePath::resolve(specifier, resolve_base)
     (resolve itself is C18's kernel: here an uninterpreted function) and whose importer is the importer given.
+    Statements here are not type-only; the type_only flag is C03's kernel K3.
 Evaluation order, exactly-once execution and live bindings are outside the claim (they are the larger part of the property).
 """
 import itertools
@@ -117,13 +118,13 @@ def check_collect(rep, cross):
                 st.extra[('jsstr', str(tok.id))] = sp
                 lit = ab.struct('StringLiteral', value=tok)
                 if kd == 'import':
-                    stmts.append(ab.enum('Statement', 'Import', ab.box(ab.struct('ImportDeclaration', source=lit))))
+                    stmts.append(ab.enum('Statement', 'Import', ab.box(ab.struct('ImportDeclaration', source=lit, type_only=Bool(False)))))
                     specs.append(sp)
                 elif kd == 'reexport':
-                    stmts.append(ab.enum('Statement', 'Export', ab.box(ab.struct('ExportDeclaration', source=ab.some(lit)))))
+                    stmts.append(ab.enum('Statement', 'Export', ab.box(ab.struct('ExportDeclaration', source=ab.some(lit), type_only=Bool(False)))))
                     specs.append(sp)
                 elif kd == 'export':
-                    stmts.append(ab.enum('Statement', 'Export', ab.box(ab.struct('ExportDeclaration', source=ab.none()))))
+                    stmts.append(ab.enum('Statement', 'Export', ab.box(ab.struct('ExportDeclaration', source=ab.none(), type_only=Bool(False)))))
                 else:
                     stmts.append(ab.enum('Statement', 'Empty'))
             prog = ab.struct('Program', body=ab.rc(VecV(stmts, 'Statement')))
